@@ -101,8 +101,9 @@ def prop_modules(prop):
     """the property's theorem files: Props/<prop>.lean and, where a theorem needs lemmas that themselves build on the
     first file, Props/<prop>b.lean"""
     mods = [prop]
-    if os.path.exists(os.path.join(LEAN, "O2oModel", "Props", prop + "b.lean")):
-        mods.append(prop + "b")
+    for sfx in ("b", "c", "d"):
+        if os.path.exists(os.path.join(LEAN, "O2oModel", "Props", prop + sfx + ".lean")):
+            mods.append(prop + sfx)
     return mods
 
 
